@@ -458,6 +458,22 @@ Theorem C14_kernel_estimate_groups : forall ug hg tcols names rows o,
 Proof. exact kernel_estimate_groups. Qed.
 Print Assumptions C14_kernel_estimate_groups.
 
+(** Scale covariance (the generators run every trial at scales 2^-40 .. 2^20): the source's record formula is homogeneous, the
+    error variance the source's heritability setters write is proportional to the genetic variance ... *)
+Theorem C14_kernel_scale_covariance : forall c m e r x h v : Q, ~ h == 0 ->
+  k_value (c * m) (c * e) (c * r) (c * x) == c * k_value m e r x /\
+  k_h2_err h (c * v) == c * k_h2_err h v /\ k_H2_err h (c * v) == c * k_H2_err h v.
+Proof. exact kernel_scale_covariance. Qed.
+Print Assumptions C14_kernel_scale_covariance.
+
+(** ... so the value vector of every record of a trial whose true values and standard deviations are multiplied by [c] (same
+    draws) is [c] times the value vector of the original record. *)
+Theorem C14_record_scale_covariance : forall (c : Q) (v sde sdr sdx ze zr zx : list Q),
+  qlist_eq (add_effects (map (Qmult c) v) (scale (map (Qmult c) sde) ze) (scale (map (Qmult c) sdr) zr) (scale (map (Qmult c) sdx) zx))
+           (map (Qmult c) (add_effects v (scale sde ze) (scale sdr zr) (scale sdx zx))).
+Proof. exact record_scale. Qed.
+Print Assumptions C14_record_scale_covariance.
+
 (** * Aliasing of the returned tables (Model/C14_Alias.v: a store of label arrays; a population holds the location of its taxa array).
     The table of G_E_Phenotyping.phenotype is built by numpy.concatenate: a write into its taxa column never reaches an array
     that existed before the call ... *)
@@ -483,7 +499,7 @@ Print Assumptions C14_true_table_write_isolated_refuted.
 (** non-vacuity of the kernel and aliasing statements: a non-empty store and a valid location; an integer nrep stored for two
     environments; a target in (0,1] with a positive variance *)
 Example C14_kernel_hyps_satisfiable :
-  (0 < length [["b"; "a"]%string])%nat /\ (0 < 2)%nat /\ k_nrep_full 2 3 <> [] /\ 0 < 1 # 2 /\ (1 # 2) <= 1 /\
+  (0 < length [["b"; "a"]%string])%nat /\ (0 < 2)%nat /\ k_nrep_full 2 3 <> [] /\ 0 < 1 # 2 /\ (1 # 2) <= 1 /\ ~ (1 # 2) == 0 /\
   (exists o, estimate false true ["y"%string] ["y"%string] [("a"%string, Some 1%Z, [1])] (Some (Some ["a"%string], None)) = Some o).
 Proof. repeat split; try (cbn; lia); try discriminate; try (eexists; vm_compute; reflexivity). Qed.
 
